@@ -133,6 +133,12 @@ def build(rng, depth=None, custom_data=None, auth_len=None, windows=None, leaf_c
     m.att_key = new_key(rng)
     m.auth_data = rng.randbytes(auth_len if auth_len is not None else
                                 rng.choice([1, 2, 32, 33, 100, 1000, rng.randint(1, 1000)]))
+    k = rng.random()
+    if k < 0.25 and len(m.auth_data) >= 1:
+        # opaque bytes: padding-like ends (zeros, blanks, newline, 0xff) are data too
+        pad = rng.choice([b"\x00", b"\x00\x00\x00", b" ", b"\n", b"\xff", b"\x00" * 8])
+        n = len(m.auth_data)
+        m.auth_data = (m.auth_data + pad)[-n:] if k < 0.18 else (pad + m.auth_data)[:n]
     att_xy = xy(m.att_key.public_key())
     m.qe_report = report_body(rng, hashlib.sha256(att_xy + m.auth_data).digest())
     leaf_key = m.cert_keys[-1]
